@@ -351,6 +351,18 @@ func profileFor(prop string, r *sim.Rand, i int, quick bool) sim.Profile {
 		p.RichGenesis = i%8 == 4
 		p.ExportedGenesis = i%16 == 12
 	}
+	switch prop {
+	case "C05", "C06", "C08", "C09", "C07":
+		// a restart now and then (in-memory bookkeeping must not be needed), validators whose addresses end in 0xFF/0x00
+		if i%4 == 0 {
+			p.RestartPct = 6
+		}
+		p.EdgeAddresses = i%4 == 2
+		p.UnstakingTimeChanges = prop == "C06" && i%8 == 0
+		if p.UnstakingTimeChanges {
+			p.W["govparam"] = 14
+		}
+	}
 	return p
 }
 
